@@ -38,6 +38,11 @@ int main() {
   OFF("Parser_current_parse_depth", Parser, m_current_parse_depth)
   SZ("Position", Parser::Position) OFF("Pos_line", Parser::Position, line) OFF("Pos_col", Parser::Position, col) OFF("Pos_pos", Parser::Position, m_pos)
   OFF("Pos_end", Parser::Position, m_end) OFF("Pos_last_col", Parser::Position, m_last_col)
+  { using CP = Parser::Char_Parser<std::string>;
+    SZ("CP", CP) OFF("CP_match", CP, match) OFF("CP_is_escaped", CP, is_escaped) OFF("CP_is_interpolated", CP, is_interpolated)
+    OFF("CP_saw_interpolation_marker", CP, saw_interpolation_marker) OFF("CP_is_octal", CP, is_octal) OFF("CP_is_hex", CP, is_hex)
+    OFF("CP_unicode_size", CP, unicode_size) OFF("CP_interpolation_allowed", CP, interpolation_allowed) OFF("CP_octal_matches", CP, octal_matches)
+    OFF("CP_hex_matches", CP, hex_matches) }
   SZ("File_Position", File_Position) SZ("Parse_Location", Parse_Location)
   SZ("std_string", std::string) SZ("std_vector", std::vector<int>) SZ("std_shared_ptr", std::shared_ptr<int>)
   static_assert(sizeof(std::string) == 32 && sizeof(std::vector<int>) == 24 && sizeof(std::shared_ptr<int>) == 16, "libstdc++ layouts the C models rely on");
